@@ -194,6 +194,29 @@ class WSPeer:
                 data = b"".join(out)
                 nfr = len(sizes)
             log("c_ws", app=self.rid, kind=op, mid=self.mid, size=size, over=size > limit, frags=nfr)
+        elif op == "frag":
+            # one frame of a message (the design's ClientFragment); the message counts as sent - and is made
+            # known to the monitors - when its last fragment goes out or when what has gone out already exceeds
+            # the size limit, whichever comes first
+            kind, n = st["kind"], st["len"]
+            if st["first"]:
+                self.mid += 1
+                self._fr = {"kind": kind, "data": b"", "frags": 0, "logged": False, "pid": st["pid"]}
+            fr = self._fr
+            part = bytes(97 + (fr["pid"] + len(fr["data"]) + i) % 26 for i in range(n))
+            if kind == "bytes":
+                part = bytes(b ^ 0x80 for b in part)
+            data = frame(OP[kind] if st["first"] else 0, part, fin=bool(st["fin"]))
+            fr["data"] += part
+            fr["frags"] += 1
+            log("c_frag", app=self.rid, kind=kind, first=bool(st["first"]), fin=bool(st["fin"]), n=n)
+            size = len(fr["data"])
+            if (st["fin"] or size > limit) and not fr["logged"]:
+                fr["logged"] = True
+                log("c_ws", app=self.rid, kind=kind, mid=self.mid, size=size, over=size > limit, frags=fr["frags"])
+            if st["fin"]:
+                payload: Any = fr["data"].decode("ascii") if kind == "text" else fr["data"]
+                self.sess.ws_sent.setdefault(self.rid, []).append({"kind": kind, "payload": payload})
         elif op == "ping":
             pp = st.get("payload", "ping").encode()
             self.pings.append(pp)
